@@ -1,12 +1,136 @@
 (* C11 — the router after any edit history equals a freshly built router.
-   Only statements; proofs in proofs/C11_proofs.v (and the C01 development). *)
+   Only statements; proofs in proofs/C11_proofs.v (on top of the C01
+   development).  filt is universally quantified as in C01.
+
+   What is proved here, for ALL histories (no depth bound):
+   * the exact effect of RadiDict.remove — exact, prefix "*" and hooks-only
+     mode, with upward pruning and _try_merge — on what the tree holds, and that
+     it keeps the tree well-formed (C11_remove_exact_effect);
+   * installing / updating / removing hooks never changes the routes held;
+   * after any history the tree holds exactly the routes the `routes` index
+     lists (C11_history_tree_matches_index), hence — by C01's get_dfs_spec, which
+     makes the answer independent of the tree's shape — every path is resolved
+     as the rule-by-rule spec resolves it on the surviving index
+     (C11_history_eq_fresh_partial).  A freshly built router satisfies the same
+     equation (C01_resolve_eq_spec), so both sides of the property equal one
+     spec value.
+
+   NOT YET PROVED (the model, the correspondence after every operation and the
+   fresh-router oracle cover them; see tools/props/C11.py):
+
+   (* FULL STATEMENT, NOT YET PROVED:
+      Theorem C11_history_eq_fresh : forall filt ops path cds,
+        Forall hist_cmd ops -> admissible ops ->
+        let R := exec_cmds router0 ops in
+        resolve filt R path cds = resolve filt (fresh R) path cds      (* incl. the hook list *)
+        /\ by_name R = by_name (fresh R) /\ by_rule R = by_rule (fresh R) /\ listing R = listing (fresh R)
+      where fresh R = the empty router + the routes of (routes R) inserted in index
+      order + the hooks of (hooks_idx R); admissible = a prefix removal "P*" only
+      when no installed hook pattern properly extends P.
+      Missing: (1) the analogue of insert_paths / C11_remove_exact_effect for the
+      hook slots (hook_paths (tree R) = hooks_idx R), (2) that re-inserting the
+      surviving routes into an empty tree never fails (needs: two patterns held
+      by one well-formed tree never conflict), (3) the index-level equalities. *)
+
+   (* FULL STATEMENT, NOT YET PROVED:
+      Theorem C11_hooks_fire_exactly : forall filt ops path cds d m h kw hs,
+        Forall hist_cmd ops -> admissible ops ->
+        let R := exec_cmds router0 ops in
+        resolve filt R path cds = ROk d m h kw hs ->
+        exists qs, hs = map (fun q => (consumed filt (fst q) (strip_sep path), snd q)) qs /\
+                   StronglySorted (fun a b => length (fst a) < length (fst b)) qs /\
+                   forall q hp, In (q, hp) qs <->
+                     (exists p fl, al_get (hooks_idx R) p = Some hp /\ q = fpat p fl) /\
+                     is_prefix q (pattern selected for d)
+      (Ombott.handler then calls the SIMPLE hooks in that order with path[:1+pos],
+       which is Router.fired_simple — part of the model and of the correspondence.) *) *)
 From Verif Require Import lib.Base lib.Str gen.Gen model.RouteSpec model.Dispatch model.Router
      proofs.C01_get proofs.C01_insert proofs.C01_router proofs.C11_proofs.
 
-(* Installing a route hook never changes which (pattern, route) pairs the tree
-   holds and keeps the tree well-formed (nodes may be split or created). *)
+(* RadiDict.remove(pattern, hooks_only, exact): the tree stays well-formed and
+   holds afterwards exactly the entries it held before, minus — unless
+   hooks_only — those whose route string equals the pattern (exact removal) or
+   starts with the pattern without its trailing '*' (prefix removal).  This
+   covers the upward pruning (nodes holding neither data, children nor hooks, fix
+   F14) and the merging of a node with its only child. *)
+Theorem C11_remove_exact_effect : forall root pattern ho exact root',
+  wf root -> rd_remove root pattern ho exact = Some root' ->
+  wf root' /\
+  forall e, In e (paths root') <->
+            In e (paths root) /\
+            keepP (ends_star pattern && negb exact) ho
+                  (if ends_star pattern && negb exact then removelast pattern else pattern) (fst e).
+Proof. exact remove_lemma. Qed.
+Print Assumptions C11_remove_exact_effect.
+
+(* Installing a route hook (node splits / new nodes included) never changes
+   which (pattern, route) pairs the tree holds. *)
 Theorem C11_hook_install_keeps_routes : forall root route fl hp nm root',
   wf root -> ntok route <= length fl -> set_at root route fl 0 (IHooks hp) nm = SOk root' ->
   wf root' /\ forall e, In e (paths root') <-> In e (paths root).
 Proof. exact hook_install_lemma. Qed.
 Print Assumptions C11_hook_install_keeps_routes.
+
+(* After ANY history — registrations (accepted or rejected, incl. the name
+   conflict that has already inserted its route), removals by rule / by name /
+   by prefix, hook installations and removals, method removals — the tree is
+   well-formed and holds exactly the routes the `routes` index lists, each under
+   its own pattern, filters and names. *)
+Theorem C11_history_tree_matches_index : forall (cs : list cmd),
+  Forall hist_cmd cs ->
+  let R := exec_cmds router0 cs in
+  wf (tree R) /\
+  (forall e, In e (paths (tree R)) <->
+             exists p d rt, al_get (routes R) p = Some d /\ nth_error (heap R) d = Some rt /\
+                            e = (fpat p (r_filters rt), (d, r_names rt))) /\
+  NoDup (map fst (routes R)).
+Proof. exact history_invariant_lemma. Qed.
+Print Assumptions C11_history_tree_matches_index.
+
+(* The route part of "equals a freshly built router": after ANY history every
+   path is resolved exactly as the rule-by-rule spec resolves it on the
+   surviving routes (removed routes are gone, survivors intact, whatever
+   splits, prunings and merges the tree went through).  PARTIAL: the hook list
+   [hs] is existentially quantified and the by-name / by-rule / listing
+   equalities are not part of this statement (see the comment above). *)
+Theorem C11_history_eq_fresh_partial : forall filt (cs : list cmd) (path : str) (cds : list str),
+  Forall hist_cmd cs ->
+  let R := exec_cmds router0 cs in
+  match spec filt (rules_of R) (strip_sep path) with
+  | None => exists vs hs i, resolve filt R path cds = R404 vs hs i
+  | Some (q, d, vs) =>
+    exists rt hs,
+      nth_error (heap R) d = Some rt /\ In (r_pattern rt, d) (routes R) /\
+      q = pat_of (r_pattern rt) (r_filters rt) /\
+      resolve filt R path cds =
+      match dispatch_on (r_methods rt) cds with
+      | DCall m (h, mn) => ROk d m h (make_params (match mn with [] => r_names rt | _ :: _ => mn end) vs) hs
+      | D405 a => R405 a
+      end
+  end.
+Proof. exact history_route_eq_spec_lemma. Qed.
+Print Assumptions C11_history_eq_fresh_partial.
+
+(* non-vacuity: the witnesses of the repaired defects F14, F15, F33 and a
+   prefix-removal / prune / merge history, evaluated on the model *)
+Example C11_nonvacuous :
+  (let R := exec_cmds router0 [CAddHook s_ab [] [] 50 false; CAdd 0 s_abc [] [] [s_get] 1 None false;
+                               CRemovePattern s_abc; CAdd 0 s_abc [] [] [s_get] 2 None false] in
+   resolve nofilt R (47%N :: s_abc) [s_get] = ROk 1 s_get 2 [] [(3, (Some 50, None))]) /\
+  (let R := exec_cmds router0 [CAddHook s_ab [] [] 50 false; CAdd 0 s_abc [] [] [s_get] 1 None false;
+                               CRemoveHook s_ab] in
+   resolve nofilt R (47%N :: s_abc) [s_get] = ROk 0 s_get 1 [] []) /\
+  (let R := exec_cmds router0 [CAdd 0 s_a [] [] [s_get] 1 (Some [110; 49]%N) false;
+                               CAdd 0 s_a [] [] [[80; 79; 83; 84]%N] 2 (Some [110; 50]%N) false;
+                               CRemoveName [110; 49]%N] in
+   named R = [] /\ routes R = []) /\
+  (let p_star := [112; 47; 42]%N in let p_q := [112; 47; 113]%N in
+   let R := exec_cmds router0 [CAdd 0 p_q [] [] [s_get] 1 None false;
+                               CAdd 1 p_star [] [] [s_get] 2 (Some [110]%N) false; CRemoveName [110]%N] in
+   map fst (routes R) = [p_q] /\ resolve nofilt R (47%N :: p_q) [s_get] = ROk 0 s_get 1 [] []) /\
+  (let R := exec_cmds router0 [CAdd 0 s_abc [] [] [s_get] 1 None false; CAdd 1 s_ab [] [] [s_get] 2 None false;
+                               CAdd 2 s_a [] [] [s_get] 3 None false; CRemovePattern s_ab;
+                               CRemovePattern [97; 47; 42]%N] in
+   map fst (routes R) = [s_a] /\ resolve nofilt R (47%N :: s_a) [s_get] = ROk 2 s_get 3 [] [] /\
+   exists vs hs i, resolve nofilt R (47%N :: s_abc) [s_get] = R404 vs hs i).
+Proof. exact c11_nonvacuous_lemma. Qed.
